@@ -59,18 +59,51 @@ def cp1252_char(b):
         return None
 
 
-def real_markup(data: bytes, enc: str, mode):
+def real_dammit(data: bytes, known, mode):
+    """(unicode_markup, contains_replacement_characters, original_encoding) of the real constructor."""
     from bs4.dammit import UnicodeDammit
-    d = UnicodeDammit(data, [enc], smart_quotes_to=mode)
-    return d.unicode_markup, bool(d.contains_replacement_characters)
+    d = UnicodeDammit(data, list(known), smart_quotes_to=mode)
+    return d.unicode_markup, bool(d.contains_replacement_characters), d.original_encoding
 
 
-def show_markup(u, repl):
-    return ("none" if u is None else "some " + S(u)) + f" repl={1 if repl else 0}"
+def real_markup(data: bytes, enc: str, mode):
+    return real_dammit(data, [enc], mode)[:2]
 
 
-def markup_line(data, enc, mode):
-    return f"c19 markup {S(enc)} {mode or 'none'} {L(data)}"
+def show_dammit(u, repl, orig):
+    if u is None:
+        return "failed"
+    return f"ok {S(u)} repl={1 if repl else 0} enc={'none' if orig is None else S(orig)}"
+
+
+def declared_of(data: bytes):
+    """What the document declares (the model takes it as a parameter; its theorems hold for every value)."""
+    from bs4.dammit import EncodingDetector
+    stripped, _ = EncodingDetector.strip_byte_order_mark(data)
+    return EncodingDetector.find_declared_encoding(stripped, False)
+
+
+def dammit_line(data, known, mode):
+    d = declared_of(data) if data else None
+    return f"c19 dammit {';'.join(S(k) for k in known) if known else '-'} {S(d) if d else '-'} {mode or 'none'} {L(data)}"
+
+
+def model_agrees(expected: str, reply: str):
+    """None = the model does not decide this case (a codec it does not decode, or a spelling outside the generated universe)."""
+    if reply.endswith(" listed=0") or reply.startswith("beyond"):
+        return None
+    return reply == expected + " listed=1"
+
+
+def strip_bom_oracle(data: bytes):
+    """The documented byte-order marks, written down independently of the code under test."""
+    if data[:2] in (b"\xfe\xff", b"\xff\xfe") and data[2:4] != b"\x00\x00":
+        return data[2:]
+    if data[:3] == b"\xef\xbb\xbf":
+        return data[3:]
+    if data[:4] in (b"\x00\x00\xfe\xff", b"\xff\xfe\x00\x00"):
+        return data[4:]
+    return data
 
 
 def carriers():
@@ -159,6 +192,112 @@ def whole_input_oracle(data, enc, mode, piece):
     return "".join(parts), bad
 
 
+# ----------------------------------------------------------------------------------------------
+# a pristine bs4 in a child process: every request is answered by a fork of the freshly imported state
+# ----------------------------------------------------------------------------------------------
+SERVER_SRC = r'''
+import sys, os, json, logging
+sys.path.insert(0, sys.argv[1])
+logging.getLogger("bs4.dammit").setLevel(logging.ERROR)
+import warnings
+warnings.simplefilter("ignore")
+import bs4
+from bs4 import BeautifulSoup
+from bs4.dammit import UnicodeDammit, EncodingDetector
+
+def call(c):
+    k = c["k"]
+    if k == "ud":
+        d = UnicodeDammit(bytes(c["b"]), list(c["known"]), smart_quotes_to=c["mode"])
+        return [d.unicode_markup, bool(d.contains_replacement_characters), d.original_encoding]
+    if k == "det":
+        return list(UnicodeDammit.detwingle(bytes(c["b"])))
+    if k == "soup":
+        soup = BeautifulSoup(bytes(c["b"]), "html.parser", from_encoding=c.get("enc"))
+        return [soup.original_encoding, soup.decode()]
+    if k == "fc":
+        return UnicodeDammit(b"x").find_codec(c["name"])
+    raise ValueError(k)
+
+def safe(c):
+    try:
+        return call(c)
+    except Exception as e:
+        return {"exc": type(e).__name__}
+
+for line in sys.stdin:
+    req = json.loads(line)
+    r, w = os.pipe()
+    pid = os.fork()
+    if pid == 0:
+        os.close(r)
+        out = json.dumps([safe(c) for c in req]).encode()
+        while out:
+            n = os.write(w, out)
+            out = out[n:]
+        os._exit(0)
+    os.close(w)
+    chunks = []
+    while True:
+        d = os.read(r, 65536)
+        if not d:
+            break
+        chunks.append(d)
+    os.close(r)
+    os.waitpid(pid, 0)
+    sys.stdout.write(b"".join(chunks).decode() + "\n")
+sys.stdout.flush()
+'''
+
+
+def pristine(requests):
+    """requests: list of call lists. Each list is run, in order, in ONE fork of a process that has imported bs4 and done
+    nothing else. Returns the list of result lists."""
+    import subprocess, sys
+    from .common import REPO
+    if not requests:
+        return []
+    p = subprocess.run([sys.executable, "-c", SERVER_SRC, str(REPO)], input="".join(json.dumps(r) + "\n" for r in requests),
+                       capture_output=True, text=True)
+    out = [json.loads(l) for l in p.stdout.splitlines() if l.strip()]
+    if p.returncode != 0 or len(out) != len(requests):
+        raise RuntimeError(f"pristine server failed rc={p.returncode} got={len(out)}/{len(requests)} stderr={p.stderr[-400:]}")
+    return out
+
+
+# spellings of the carrier names (and relatives) that CPython accepts, for histories and the spelling grid
+SPELLINGS = ["windows-1252", "WINDOWS-1252", "Windows-1252", "windows_1252", "Windows_1252", "WINDOWS_1252", "windows1252", "cp1252", "CP1252", "Cp1252",
+             "iso-8859-1", "ISO-8859-1", "Iso-8859-1", "ISO_8859-1", "iso_8859-1", "iso8859-1", "ISO8859-1", "iso-8859_1", "latin-1", "LATIN-1", "latin1",
+             "Latin1", "l1", "iso-ir-100", "IBM819", "cp819", "iso88591",
+             "iso-8859-2", "ISO-8859-2", "Iso-8859-2", "ISO_8859-2", "iso_8859-2", "iso8859_2", "latin-2", "l2", "iso-ir-101",
+             "utf-8", "UTF-8", "utf8", "macintosh", "mac-roman", "ascii", "iso-8859-15", "bogus-enc"]
+
+
+def expected_carrier(spelling: str) -> bool:
+    """By the property text: the three named encodings, in any letter case (names are case-insensitive)."""
+    return spelling.lower() in DOCUMENTED_CARRIERS
+
+
+def ud_call_oracle(call, result, piece):
+    """The property for one UnicodeDammit call whose first known encoding is a documented carrier (any letter case) with a
+    mode set: in-order concatenation of each byte's conversion over the BOM-stripped input. Returns None if satisfied /
+    not applicable, else (what, expected)."""
+    known, mode, data = call["known"], call["mode"], bytes(call["b"])
+    if not known or not expected_carrier(known[0]) or mode is None or not data:
+        return None
+    if isinstance(result, dict):
+        return ("the constructor raised " + result.get("exc", "?"), "a converted string")
+    u, repl, orig = result
+    enc = known[0].lower()
+    want, badb = whole_input_oracle(strip_bom_oracle(data), enc, mode, piece)
+    if badb:
+        return (f"the conversion of byte(s) {[hex(b) for b in badb]} does not denote their Windows-1252 character",
+                "each byte 0x80-0x9F replaced by a reference to / substitute for its cp1252 character")
+    if u != want or repl:
+        return ("bytes 0x80-0x9F were not converted as requested (result is not the in-order concatenation of each byte's conversion)", want)
+    return None
+
+
 _LIMIT = {}
 
 
@@ -208,6 +347,43 @@ def rand_smart_input(r):
         else:
             out.append(r.randrange(0x20, 0x7F) if r.random() < 0.9 else r.randrange(0, 0x20))
     return bytes(b for b in out if b != 0x3C)
+
+
+BOMS = [b"\xef\xbb\xbf", b"\xff\xfe", b"\xfe\xff", b"\x00\x00\xfe\xff", b"\xff\xfe\x00\x00", b"\xff", b"\xfe", b"\xef\xbb", b"\x00\x00"]
+
+
+def rand_doc(r):
+    """A document for the constructor: maybe a byte-order mark (or a near miss), maybe an XML declaration naming an
+    encoding in some spelling, maybe tags, then text with smart bytes. Any byte may occur."""
+    out = b""
+    if r.random() < 0.2:
+        out += r.choice(BOMS)
+    if r.random() < 0.25:
+        q = r.choice(["\"", "'"])
+        out += (r.choice(["", " ", "\n"]) + "<?xml version=" + q + "1.0" + q + " encoding=" + q + r.choice(SPELLINGS) + q + "?>").encode()
+    if r.random() < 0.3:
+        out += r.choice([b"<p>", b"<a b='", b"<!--", b"<", b"<meta charset=iso-8859-2>"])
+    body = rand_smart_input(r) if r.random() < 0.8 else bytes(r.randrange(256) for _ in range(r.randrange(0, 10)))
+    if r.random() < 0.5 and out:
+        body = body[1:]          # drop the leading ASCII letter rand_smart_input puts in
+    return out + body
+
+
+def rand_call(r):
+    k = r.random()
+    if k < 0.72:
+        known = [r.choice(SPELLINGS)]
+        if r.random() < 0.2:
+            known.append(r.choice(SPELLINGS))
+        data = rand_doc(r) or b"\x93"
+        return {"k": "ud", "b": list(data), "known": known, "mode": r.choice(MODES)}
+    if k < 0.86:
+        enc = r.choice(SPELLINGS + [None, None])
+        doc = (b"<meta charset=" + r.choice(SPELLINGS).encode() + b">" if r.random() < 0.6 else b"") + b"<p>" + rand_smart_input(r)
+        return {"k": "soup", "b": list(doc), "enc": enc}
+    if k < 0.94:
+        return {"k": "det", "b": list(rand_garbage(r))}
+    return {"k": "fc", "name": r.choice(SPELLINGS)}
 
 
 def rand_garbage(r):
@@ -269,17 +445,100 @@ def run(ctx: Ctx):
     if lean_broken:
         ctx.notes.append("Lean obligations did not build: the exhaustive table oracles below are the search for a failing input")
 
-    # ---------------- A. exhaustive: 32 bytes x 4 modes x (carriers + non-carriers), alone and in context ------------------
     car = carriers()
-    encs = car + [e for e in NON_CARRIERS if e not in car]
     lines, impl, cases = [], [], []
+    single = {}
+
+    def piece(b, enc, mode):
+        key = (b, enc, mode)
+        if key not in single:
+            single[key] = real_markup(bytes([b]), enc, mode)[0]
+        return single[key]
+
+    # ---------------- H. histories: calls in ONE process vs the same call in a pristine process ------------------------------
+    # (run first, and in forked children of a freshly imported bs4, so that nothing this check does earlier can mask or
+    #  cause a dependence on history)
+    r = ctx.rng("history")
+    hists = []
+    # systematic: every spelling once before each canonical carrier name (and the reverse order)
+    for sp in SPELLINGS:
+        for canon in DOCUMENTED_CARRIERS:
+            mode = r.choice(MODES[1:])
+            a = {"k": "ud", "b": [0x61, 0x93, 0x80 + r.randrange(32)], "known": [sp], "mode": r.choice(MODES)}
+            b_ = {"k": "ud", "b": [0x93, 0x9F, 0x62], "known": [canon], "mode": mode}
+            hists.append([a, b_] if r.random() < 0.7 else [b_, a, dict(b_, known=[sp])])
+    for _ in range(ctx.n(150, 1500)):
+        hists.append([rand_call(r) for _ in range(r.randrange(2, 7))])
+    uniq = {}
+    for h in hists:
+        for c in h:
+            uniq.setdefault(json.dumps(c, sort_keys=True), c)
+    # the spelling grid: every spelling x every mode x a few inputs, each in a pristine process
+    for sp in SPELLINGS:
+        for mode in MODES:
+            for data in (b"\x93", b"a\x80\x9fz", b"\xef\xbb\xbf<p>\x85", b"\x81\xe9"):
+                c = {"k": "ud", "b": list(data), "known": [sp], "mode": mode}
+                uniq.setdefault(json.dumps(c, sort_keys=True), c)
+    keys = list(uniq)
+    fresh = dict(zip(keys, [x[0] for x in pristine([[uniq[k]] for k in keys])]))
+    hres = pristine(hists)
+    ctx.count("history:histories", len(hists))
+    ctx.count("history:pristine-single-calls", len(keys))
+    nbad = 0
+    for h, res in zip(hists, hres):
+        for i, (c, got) in enumerate(zip(h, res)):
+            want = fresh[json.dumps(c, sort_keys=True)]
+            ctx.case(("H", json.dumps(h[:i + 1], sort_keys=True)) if i > 0 else None)
+            ctx.count(f"history:call:{c['k']}")
+            if c["k"] == "ud" and i > 0:
+                bad = ud_call_oracle(c, got, piece)
+                if bad:
+                    limited(ctx, bad[0] + " (after earlier calls in the same process)", stream="history-oracle",
+                            case={"op": "history", "calls": h[:i + 1]}, expected=bad[1], observed=got if isinstance(got, dict) else got[0])
+            if got != want:
+                nbad += 1
+                if nbad <= 3:
+                    # shrink to one earlier call + the affected call if that reproduces
+                    minimal = h[:i + 1]
+                    for j in range(i):
+                        two = pristine([[h[j], c]])[0]
+                        if two[1] != want:
+                            minimal = [h[j], c]
+                            got = two[1]
+                            break
+                    ctx.violation("the result of a call depends on earlier calls in the same process", stream="history",
+                                  case={"op": "history", "calls": minimal}, expected=want, observed=got)
+    spelling_obs = {}
+    for k in keys:
+        c, res = uniq[k], fresh[k]
+        if c["k"] != "ud":
+            continue
+        known, mode, data = c["known"], c["mode"], bytes(c["b"])
+        nontriv = expected_carrier(known[0]) and mode is not None and any(0x80 <= x <= 0x9F for x in strip_bom_oracle(data))
+        ctx.case(("U", k) if nontriv else None)
+        ctx.count("pristine-ud:" + ("carrier-spelling+mode+smart" if nontriv else "other"))
+        if isinstance(res, dict):
+            ctx.violation("the constructor raised " + res.get("exc", "?"), stream="pristine-ud", case={"op": "ud", **c},
+                          expected="a result", observed=res)
+            continue
+        bad = ud_call_oracle(c, res, piece)
+        if bad:
+            limited(ctx, bad[0], stream="pristine-ud", case={"op": "ud", **c}, expected=bad[1], observed=res[0])
+        lines.append(dammit_line(data, known, mode)); impl.append(show_dammit(*res)); cases.append({"op": "ud", **c})
+        # record what the code does with spellings the property does not name
+        if len(data) == 1 and mode == "xml" and not expected_carrier(known[0]):
+            spelling_obs[known[0]] = {"find_codec->original_encoding": res[2], "converted": res[0] != data.decode("latin-1") and "&" in (res[0] or "")}
+    ctx.extra["spellings_outside_the_documented_three"] = spelling_obs
+
+    # ---------------- A. exhaustive: 32 bytes x 4 modes x (carriers + non-carriers), alone and in context ------------------
+    encs = car + [e for e in NON_CARRIERS if e not in car]
     undefined_record = {}
     for enc in encs:
         for mode in MODES:
             for b in range(0x80, 0xA0):
                 data = bytes([b])
-                u, repl = real_markup(data, enc, mode)
-                lines.append(markup_line(data, enc, mode)); impl.append(show_markup(u, repl))
+                u, repl, o_u = real_dammit(data, [enc], mode)
+                lines.append(dammit_line(data, [enc], mode)); impl.append(show_dammit(u, repl, o_u))
                 case = {"op": "smart", "enc": enc, "mode": mode, "bytes": list(data)}
                 cases.append(case)
                 nontriv = enc in car and mode is not None
@@ -296,7 +555,7 @@ def run(ctx: Ctx):
                                       case=case, expected=want, observed=u, stream="smart-exhaustive")
                 else:
                     # a non-carrier encoding: the mode must make no difference (plain decoding / fallback chain)
-                    u0, repl0 = real_markup(data, enc, None)
+                    u0, repl0, o_u0 = real_dammit(data, [enc], None)
                     if enc != "cp1252" and (u, repl) != (u0, repl0):
                         # (for 'cp1252' the fallback candidate 'windows-1252' is itself a carrier, so a mode may show after a failed strict decode)
                         ctx.violation(f"non-carrier encoding {enc}: smart_quotes_to={mode!r} changed the result", case=case,
@@ -305,8 +564,8 @@ def run(ctx: Ctx):
                 if enc in car and mode is not None:
                     for pre, post in ((b"a", b"z"), (b"q&amp;", b";1")):
                         d2 = pre + data + post
-                        u2, repl2 = real_markup(d2, enc, mode)
-                        lines.append(markup_line(d2, enc, mode)); impl.append(show_markup(u2, repl2))
+                        u2, repl2, o_u2 = real_dammit(d2, [enc], mode)
+                        lines.append(dammit_line(d2, [enc], mode)); impl.append(show_dammit(u2, repl2, o_u2))
                         c2 = {"op": "smart", "enc": enc, "mode": mode, "bytes": list(d2)}
                         cases.append(c2)
                         ctx.case(("A2", enc, mode, d2))
@@ -320,8 +579,8 @@ def run(ctx: Ctx):
         if c.get("op") != "smart":
             continue
         data, enc, mode = bytes(c["bytes"]), c["enc"], c["mode"]
-        u, repl = real_markup(data, enc, mode)
-        lines.append(markup_line(data, enc, mode)); impl.append(show_markup(u, repl)); cases.append(c)
+        u, repl, o_u = real_dammit(data, [enc], mode)
+        lines.append(dammit_line(data, [enc], mode)); impl.append(show_dammit(u, repl, o_u)); cases.append(c)
         ctx.case(("corpus", v["file"]))
         ctx.count("corpus:smart")
         if enc in car and mode is not None:
@@ -359,20 +618,12 @@ def run(ctx: Ctx):
     # ---------------- B. random whole inputs through UnicodeDammit --------------------------------------------------------
     r = ctx.rng("smart-random")
     nB = ctx.n(6000, 60000)
-    single = {}
-
-    def piece(b, enc, mode):
-        key = (b, enc, mode)
-        if key not in single:
-            single[key] = real_markup(bytes([b]), enc, mode)[0]
-        return single[key]
-
     for i in range(nB):
         data = rand_smart_input(r)
         enc = r.choice(encs) if r.random() < 0.25 else r.choice(car)
         mode = r.choice(MODES) if r.random() < 0.3 else r.choice(MODES[1:])
-        u, repl = real_markup(data, enc, mode)
-        lines.append(markup_line(data, enc, mode)); impl.append(show_markup(u, repl))
+        u, repl, o_u = real_dammit(data, [enc], mode)
+        lines.append(dammit_line(data, [enc], mode)); impl.append(show_dammit(u, repl, o_u))
         case = {"op": "smart", "enc": enc, "mode": mode, "bytes": list(data)}
         cases.append(case)
         has_smart = any(0x80 <= b <= 0x9F for b in data)
@@ -395,7 +646,10 @@ def run(ctx: Ctx):
     rep = drv.ask(lines)
     nd = 0
     for l, a, m, c in zip(lines, impl, rep, cases):
-        if a != m:
+        agree = model_agrees(a, m)
+        if agree is None:
+            ctx.count("smart:model-does-not-decide")
+        elif not agree:
             nd += 1
             ctx.corr_disagreements += 1
             already = any(v["case"] == c for v in ctx.violations)
@@ -577,7 +831,7 @@ def replay(path):
     if op == "smart":
         data = bytes(c["bytes"])
         enc, mode = c["enc"], c["mode"]
-        u, repl = real_markup(data, enc, mode)
+        u, repl, o_u = real_dammit(data, [enc], mode)
         print(f"UnicodeDammit({data!r}, [{enc!r}], smart_quotes_to={mode!r}).unicode_markup = {u!r}")
         print("property demands:", v.get("expected"))
         if enc in carriers() and mode is not None:
@@ -588,6 +842,27 @@ def replay(path):
         if enc in carriers() and len(data) == 1:
             return 1 if smart_oracle(data[0], enc, mode, u)[0] is False else 0
         return 1 if v.get("expected") is not None and u != v["expected"] else 0
+    if op == "history":
+        calls = c["calls"]
+        hist = pristine([calls])[0]
+        alone = pristine([[calls[-1]]])[0][0]
+        print("history:", json.dumps(calls))
+        print("last call, after the history :", json.dumps(hist[-1]))
+        print("last call, in a fresh process:", json.dumps(alone))
+        bad = hist[-1] != alone
+        if calls[-1]["k"] == "ud":
+            o = ud_call_oracle(calls[-1], hist[-1], lambda b, e, m: real_markup(bytes([b]), e, m)[0])
+            if o:
+                print("property:", o[0], "; demanded:", o[1])
+                bad = True
+        return 1 if bad else 0
+    if op == "ud":
+        res = pristine([[{k: c[k] for k in ("k", "b", "known", "mode")}]])[0][0]
+        print("UnicodeDammit(%r, %r, smart_quotes_to=%r) ->" % (bytes(c["b"]), c["known"], c["mode"]), json.dumps(res))
+        o = ud_call_oracle(c, res, lambda b, e, m: real_markup(bytes([b]), e, m)[0])
+        if o:
+            print("property:", o[0], "; demanded:", o[1])
+        return 1 if o else 0
     if op == "detwingle":
         data = bytes(c["bytes"])
         out = real_detwingle(data)
